@@ -24,7 +24,7 @@ EXPLANATION = (
     ' (R12) who-may-delete census (shared with C09.R3); (R13) every data-file production site is dominated by _register_inflight for the same path (shared with C06.R10).'
     ' (R14) the manifest parsers drop no entry (shared with C14.R7).'
     " (R18) the marker abandonment window is never derived: call sites of collect / _load_inflight_protection omit it, name DEFAULT_INFLIGHT_TIMEOUT_MS or pass on a same-default parameter; (R19) no handler on the collector's read path (metadata resolution, manifest readers, backends) completes normally."
-    ' (R20) recovery orders versions as integers; (R21) the metadata decoder reads every written key strictly; R18 also requires DEFAULT_INFLIGHT_TIMEOUT_MS to be a literal number of milliseconds >= the default grace period; R3 reads the keep-set union through locals, a.union(b, c) and in-place update.')
+    ' (R20) recovery orders versions as integers; (R21) the metadata decoder reads every written key strictly; R18 also requires DEFAULT_INFLIGHT_TIMEOUT_MS to evaluate at compile time (literals, module constants, pure module helpers, timedelta) to an integer of milliseconds >= the default grace period; R3 reads the keep-set union through locals, a.union(b, c) and in-place update.')
 NOT_DECIDED = ("histories x location spellings at run time; that orphans are in fact removed; grace-period arithmetic")
 
 GC = "garbage_collector.GarbageCollector"
@@ -81,6 +81,9 @@ def check(ctx: Ctx) -> None:
     # reachability is computed from the decoded metadata: a lenient decoder hides retained snapshots
     from .c14 import metadata_reader_is_strict
     metadata_reader_is_strict(ctx, "C05.R21")
+    # an unreadable manifest read as empty makes live files unreachable
+    from .c14 import parsers_read_containers_strictly
+    parsers_read_containers_strictly(ctx, "C05.R22")
 
 
 def abandonment_window_not_derived(ctx: Ctx, rid: str = "C05.R18") -> None:
@@ -137,17 +140,15 @@ def abandonment_window_not_derived(ctx: Ctx, rid: str = "C05.R18") -> None:
                    f"default of `{pn}`: {norm_text(par.default) if par.default is not None else None}", text="default")
             # ... and the constant IS a constant: an integer literal expression of at least the default grace period, in
             # milliseconds (not an environment read, not a value in seconds)
+            from .common import module_const_number
             cdef = t.module.consts.get("DEFAULT_INFLIGHT_TIMEOUT_MS")
-            val = None
-            try:
-                if cdef is not None and all(isinstance(x, (ast.Constant, ast.BinOp, ast.Mult, ast.Add, ast.UnaryOp, ast.USub, ast.Load, ast.Pow)) for x in ast.walk(cdef)):
-                    val = eval(compile(ast.Expression(body=cdef), "<const>", "eval"), {"__builtins__": {}}, {})  # arithmetic on literals only
-            except Exception:
-                val = None
+            val = module_const_number(ctx, t.module, cdef)
             gdef = next((p_.default for p_ in t.params if "grace" in p_.name), None)
-            gval = gdef.value if isinstance(gdef, ast.Constant) and isinstance(gdef.value, int) else 3600000
-            okv = isinstance(val, int) and val >= gval
-            ctx.ob(rid, t, "DEFAULT_INFLIGHT_TIMEOUT_MS is a literal number of milliseconds >= the default grace period", None, okv,
+            gval = module_const_number(ctx, t.module, gdef)
+            if gval is None:
+                gval = 3600000
+            okv = isinstance(val, int) and not isinstance(val, bool) and val >= gval
+            ctx.ob(rid, t, "DEFAULT_INFLIGHT_TIMEOUT_MS is a compile-time integer of milliseconds >= the default grace period", None, okv,
                    f"value: {val if val is not None else norm_text(cdef)[:60] if cdef is not None else None}; default grace period: {gval} ms"
                    + ("" if okv else " - a window read from the environment / expressed in seconds strips the markers of transactions "
                       "that are still running"), text="const")
